@@ -1,6 +1,7 @@
 package main
 
 import (
+	"regexp"
 	"sync"
 	"fmt"
 	"go/ast"
@@ -422,6 +423,10 @@ func (e *Engine) setupSpecFuns() (err error) {
 		rs := e.S.sortOf(info.rtype)
 		if info.def.Body != nil && !info.recursive && info.def.Opaque {
 			body := e.translateSpecBody(dummy, info, map[string]bool{})
+			if e.contentForm(info, body, params, rs) {
+				info.declared = true
+				return
+			}
 			e.S.decls = append(e.S.decls, fmt.Sprintf("(declare-fun %s (%s) %s)", info.smt, strings.Join(psorts, " "), rs))
 			if len(params) == 0 {
 				e.S.decls = append(e.S.decls, fmt.Sprintf("(assert (= %s %s))", info.smt, body))
@@ -611,4 +616,62 @@ func (e *Engine) posOf(p token.Pos) string {
 func fatal(f string, a ...interface{}) {
 	fmt.Fprintf(os.Stderr, "govc: "+f+"\n", a...)
 	os.Exit(2)
+}
+
+// contentForm: an opaque spec function whose body reads the heaps only as `(select heap p)` for parameters p (the content
+// of a map or cell designated by a parameter) is declared over these contents, and the heap-taking symbol becomes a
+// macro over it. Framing is then congruence: a write elsewhere in the heap leaves (select heap p) and hence the value of
+// the function unchanged, without unfolding the (quantified) definition in two states.
+func (e *Engine) contentForm(info *SpecFunInfo, body string, params []string, rs string) bool {
+	if len(info.reads) == 0 {
+		return false
+	}
+	type cp struct{ name, sort, arg string }
+	var cps []cp
+	seen := map[string]bool{}
+	nb := body
+	for _, k := range info.reads {
+		hs := e.heapSorts[k]
+		if !strings.HasPrefix(hs, "(Array Int ") || !strings.HasSuffix(hs, ")") {
+			return false
+		}
+		elem := hs[len("(Array Int ") : len(hs)-1]
+		re := regexp.MustCompile(`\(select hp_` + regexp.QuoteMeta(k) + ` (p_[A-Za-z0-9_]+)\)`)
+		nb = re.ReplaceAllStringFunc(nb, func(m string) string {
+			x := re.FindStringSubmatch(m)[1]
+			n := "c!" + k + "!" + x
+			if !seen[n] {
+				seen[n] = true
+				cps = append(cps, cp{n, elem, m})
+			}
+			return n
+		})
+		// any other use of the heap (a read through a pointer found in the heap, a nested function taking the heap)
+		if regexp.MustCompile(`(^|[ (])hp_` + regexp.QuoteMeta(k) + `($|[ )])`).MatchString(nb) {
+			return false
+		}
+	}
+	if len(cps) == 0 {
+		return false
+	}
+	var cparams, csorts, cnames, cargs []string
+	for _, c := range cps {
+		cparams = append(cparams, fmt.Sprintf("(%s %s)", c.name, c.sort))
+		csorts = append(csorts, c.sort)
+		cnames = append(cnames, c.name)
+		cargs = append(cargs, c.arg)
+	}
+	var pnames []string
+	for i, p := range info.def.Params {
+		cparams = append(cparams, fmt.Sprintf("(p_%s %s)", p.Name, e.S.sortOf(info.ptypes[i])))
+		csorts = append(csorts, e.S.sortOf(info.ptypes[i]))
+		pnames = append(pnames, "p_"+p.Name)
+	}
+	inner := info.smt + "!c"
+	app := "(" + inner + " " + strings.Join(append(append([]string{}, cnames...), pnames...), " ") + ")"
+	e.S.decls = append(e.S.decls,
+		fmt.Sprintf("(declare-fun %s (%s) %s)", inner, strings.Join(csorts, " "), rs),
+		fmt.Sprintf("(assert (forall (%s) (! (= %s %s) :pattern (%s))))", strings.Join(cparams, " "), app, nb, app),
+		fmt.Sprintf("(define-fun %s (%s) %s (%s %s))", info.smt, strings.Join(params, " "), rs, inner, strings.Join(append(append([]string{}, cargs...), pnames...), " ")))
+	return true
 }
